@@ -129,8 +129,8 @@ def with_runs(rng, g, tier, npools=None, rounds=None):
         npools = npools or 3
         rounds = rounds or 4
     else:
-        npools = npools or 5
-        rounds = rounds or 50
+        npools = npools or 4
+        rounds = rounds or 25
     pools = rng.sample(POOLS, npools)
     return g + [("run", p, rounds) for p in sorted(pools)]
 
